@@ -285,7 +285,20 @@ func (e *Env) inlineHelpers(except ...*types.Func) func(*ssa.Function) bool {
 		if load.IsModule(path) && (strings.Contains(path, "/internal/") || strings.HasSuffix(path, "/internal")) {
 			return true
 		}
-		if !load.IsLib(path) || obj.Exported() {
+		if !load.IsLib(path) {
+			return false
+		}
+		if obj.Exported() {
+			// a method of an unexported type is a helper whatever its own spelling (String() of a small private type)
+			if sig, ok := obj.Type().(*types.Signature); ok && sig.Recv() != nil {
+				rt := sig.Recv().Type()
+				if pt, ok := rt.(*types.Pointer); ok {
+					rt = pt.Elem()
+				}
+				if named, ok := rt.(*types.Named); ok && !named.Obj().Exported() {
+					return true
+				}
+			}
 			return false
 		}
 		return true
